@@ -596,3 +596,53 @@ func (g *Graph) BoolPhiDNF(phi *ssa.Phi, ctx *Ctx, want bool) []FactSet {
 	}
 	return alts
 }
+
+// GuardEdges: the If edges that establish match — directly, or because the condition is the
+// outcome of a predicate helper of the repository every alternative of which (for that outcome)
+// contains a matching fact ("if q.full() { return }": the false edge establishes, per alternative
+// of full() == false, "limit off" or "below the limit").
+func (g *Graph) GuardEdges(match func(t *Term, pol bool) bool) []*Node {
+	return g.Select(EdgeWhere(func(t *Term, pol bool, n *Node) bool {
+		if match(t, pol) {
+			return true
+		}
+		nt, npol := normFact(t, pol)
+		if nt == nil || nt.Op != "call" {
+			return false
+		}
+		cv, ok := nt.V.(*ssa.Call)
+		if !ok {
+			return false
+		}
+		callee := cv.Common().StaticCallee()
+		if callee == nil || !g.P.InRepo(callee) || (nt.Ctx != nil && nt.Ctx.has(callee)) {
+			return false
+		}
+		d := 0
+		if nt.Ctx != nil {
+			d = nt.Ctx.Depth + 1
+		}
+		cctx := &Ctx{Parent: nt.Ctx, Site: cv, Fn: callee, Depth: d}
+		var alts []FactSet
+		if npol {
+			alts = g.P.AcceptDNF(callee, cctx, 0, 2)
+		} else {
+			alts = g.P.RejectDNF(callee, cctx, 0, 2)
+		}
+		if len(alts) == 0 {
+			return false
+		}
+		for _, alt := range alts {
+			found := false
+			for _, f := range alt {
+				if match(f.Cond, f.Pol) {
+					found = true
+				}
+			}
+			if !found {
+				return false
+			}
+		}
+		return true
+	}))
+}
